@@ -106,6 +106,14 @@ impl<T: TypeConfig> EmbeddedReadHandle<T> {
         match consistency {
             ReadConsistencyPolicy::EventualConsistency => {
                 if let Ok(values) = self.sm.get_multi(keys) {
+                    #[cfg(feature = "verif-hooks")]
+                    d_engine_core::verif::emit(d_engine_core::verif::VerifEvent::ReadServed {
+                        node: 0,
+                        path: "embedded_handle",
+                        policy: "eventual",
+                        term: 0,
+                        lease: Arc::as_ptr(&self.lease) as usize,
+                    });
                     return Ok(values);
                 }
                 // SM stopped or hard error → fall through to cmd_tx
@@ -114,6 +122,14 @@ impl<T: TypeConfig> EmbeddedReadHandle<T> {
                 if self.lease.is_valid(now_ms())
                     && let Ok(values) = self.sm.get_multi(keys)
                 {
+                    #[cfg(feature = "verif-hooks")]
+                    d_engine_core::verif::emit(d_engine_core::verif::VerifEvent::ReadServed {
+                        node: 0,
+                        path: "embedded_handle",
+                        policy: "lease",
+                        term: 0,
+                        lease: Arc::as_ptr(&self.lease) as usize,
+                    });
                     return Ok(values);
 
                     // SM stopped or hard error → fall through
